@@ -180,6 +180,49 @@ theorem C14_timeSub_monotone (a b d : Dur) (hab : (Dur.new a.sec a.ns).le (Dur.n
     (timeSub a d).le (timeSub b d) :=
   C14_sub_monotone _ _ _ (C14_new_normalized _ _) (C14_new_normalized _ _) hab
 
+/-- a normalised value is determined by its total -/
+theorem eq_of_total_eq (a b : Dur) (ha : a.normalized) (hb : b.normalized) (h : totalNs a = totalNs b) : a = b := by
+  cases a with | mk as an => cases b with | mk bs bn =>
+  unfold totalNs Dur.normalized NS at *
+  simp only at *
+  have h1 : as = bs := by omega
+  have h2 : an = bn := by omega
+  subst h1; subst h2; rfl
+
+/-- **C14_add_sub_cancel**: away from saturation subtraction undoes addition exactly — for ALL normalised operands whose
+    sum stays inside the i32-second range, `(a + d) - d = a`, seconds and nanoseconds (a deadline or lifespan added to a
+    timestamp and taken off again gives the timestamp back, to the nanosecond). -/
+theorem C14_add_sub_cancel (a d : Dur) (ha : a.normalized) (hd : d.normalized) (hs : inI32 a.sec) (h : addNoSat a d) :
+    (a.add d).sub d = a := by
+  apply eq_of_total_eq _ _ (C14_sub_normalized _ _) ha
+  rw [C14_sub_exact, C14_add_exact]
+  have hr : TOT_MIN ≤ totalNs a + totalNs d ∧ totalNs a + totalNs d ≤ TOT_MAX := by
+    unfold addNoSat inI32 totalNs TOT_MIN TOT_MAX I32MIN I32MAX Dur.normalized NS at *; omega
+  rw [clampTot_id _ hr]
+  have hr2 : TOT_MIN ≤ totalNs a + totalNs d - totalNs d ∧ totalNs a + totalNs d - totalNs d ≤ TOT_MAX := by
+    unfold inI32 totalNs TOT_MIN TOT_MAX I32MIN I32MAX Dur.normalized NS at *; omega
+  rw [clampTot_id _ hr2]
+  omega
+
+/-- **C14_sub_add_cancel**: and addition undoes subtraction: `(a - d) + d = a` away from saturation. -/
+theorem C14_sub_add_cancel (a d : Dur) (ha : a.normalized) (hd : d.normalized) (hs : inI32 a.sec) (h : subNoSat a d) :
+    (a.sub d).add d = a := by
+  apply eq_of_total_eq _ _ (C14_add_normalized _ _) ha
+  rw [C14_add_exact, C14_sub_exact]
+  have hr : TOT_MIN ≤ totalNs a - totalNs d ∧ totalNs a - totalNs d ≤ TOT_MAX := by
+    unfold subNoSat inI32 totalNs TOT_MIN TOT_MAX I32MIN I32MAX Dur.normalized NS at *; omega
+  rw [clampTot_id _ hr]
+  have hr2 : TOT_MIN ≤ totalNs a - totalNs d + totalNs d ∧ totalNs a - totalNs d + totalNs d ≤ TOT_MAX := by
+    unfold inI32 totalNs TOT_MIN TOT_MAX I32MIN I32MAX Dur.normalized NS at *; omega
+  rw [clampTot_id _ hr2]
+  omega
+
+/-- at the rail the cancellation fails (saturation loses the excess): the `addNoSat` hypothesis is needed -/
+theorem C14_add_sub_cancel_saturation_counterexample :
+    let a : Dur := { sec := 2147483647, ns := 5 }
+    let d : Dur := { sec := 1, ns := 0 }
+    a.normalized ∧ d.normalized ∧ inI32 a.sec ∧ (a.add d).sub d ≠ a := by decide
+
 /-- before fixes/D50.patch: at the i32 rail seconds saturated but nanoseconds wrapped, so addition was not monotone there
     (defect D50, repaired; regression witness on the old operator) -/
 theorem C14_add_monotone_saturation_counterexample :
